@@ -521,6 +521,15 @@ void HyperedgeImprover::removeZeroLengthEdges(HyperedgeTreeNode *self,
                 {
                     target = self;
                     source = other;
+                    if (other->edges.size() == 1)
+                    {
+                        // 'other' is the terminal of the connector and
+                        // 'self' takes over that role, so it also has to
+                        // take over what is known about the terminal.
+                        self->finalVertex = other->finalVertex;
+                        self->isConnectorSource = other->isConnectorSource;
+                        self->isPinDummyEndpoint = other->isPinDummyEndpoint;
+                    }
                 }
                 else if ( other->junction && self->junction &&
                         m_can_make_major_changes)
